@@ -1,7 +1,7 @@
 #!/usr/bin/env python3
 """Regenerates /verif/MANIFEST.json from the table below and the list of built checks (bin/check -list)."""
 import json, subprocess, sys, os
-os.chdir('/verif')
+os.chdir(os.path.join(os.path.dirname(os.path.abspath(__file__)), '..'))
 built = subprocess.run(['./bin/check', '-list'], capture_output=True, text=True).stdout.split()
 props = [json.loads(l) for l in open('properties.jsonl')]
 
@@ -10,52 +10,52 @@ def t(i, engine, technique, text, note):
     T[i] = dict(engine=engine, technique=technique, text=text, note=note)
 
 t('C19', 'E1', 'exhaustive enumeration of all (chain, trust list) pairs over a look-alike pool against a DER-equality reference model',
-  'Every chain (length 1..3 quick / 1..4 thorough) x every trust list (length 0..3 / 0..4) over a pool of seven look-alike certificates is run through the real VerifyAuthenticity and compared with a byte-equality reference, after each of four kinds of preceding call (none / trusted through the last chain certificate / the same trust slice updated in place / the reversed list, with long-lived certificate objects); plus the complete scheme x time table of AuthenticSigningTime. The space is a finite product and is enumerated completely (evaluations are checked against the closed form).',
+  'Every chain (length 1..3 quick / 1..4 thorough) x every trust list (length 0..3 / 0..4) over a pool of seven look-alike certificates is run through the real VerifyAuthenticity and compared with a byte-equality reference, after each of four kinds of preceding call (none / trusted through the last chain certificate / the same trust slice updated in place / the reversed list, with long-lived certificate objects) and with three signing times recorded in the signer info (none, inside and outside the validity of the trust entries); plus the complete scheme x time table of AuthenticSigningTime. The space is a finite product and is enumerated completely (evaluations are checked against the closed form).',
   'Look-alikes outside the seven pool members are not explored. crypto/x509 parsing is trusted to return Raw = input DER.')
 
 t('C03', 'E1', 'exhaustive enumeration of chain descriptions (single violations, benign x violation pairs, violation pairs) against a reference model evaluated on the description',
-  'Chains of length 1..4 (quick) / 1..5 (thorough) are forged from descriptions; every single requirement violation at every position, every benign variation (incl. an intermediate named like its issuer), every (benign, violation) pair (violations incl. a signature value corrupted after issuance, an issuer name with reordered attributes and supplied signing times at the zero instant / epoch / year 9999; a panicking validator is a violation; fixed serial numbers; the conforming chain validated first) and (thorough) every pair of violations is validated by the real ValidateCodeSigningCertChain, the revocation validators and Sign() in both formats, and compared with a reference computed from the description. Signing-time boundaries are exact (NotBefore, NotAfter, +-1 s).',
+  'Chains of length 1..4 (quick) / 1..5 (thorough) are forged from descriptions; every single requirement violation at every position, every benign variation (incl. an intermediate named like its issuer, a root whose authority key identifier differs from its subject key identifier), every (benign, violation) pair (violations incl. a signature value corrupted after issuance, an issuer name with reordered attributes or re-encoded as UTF8String, a CA key-usage extension that is present but empty, and supplied signing times at the zero instant / epoch / year 9999; a panicking validator is a violation; fixed serial numbers; the conforming chain validated first) and (thorough) every pair of violations is validated by the real ValidateCodeSigningCertChain, the revocation validators and Sign() in both formats, and compared with a reference computed from the description. Signing-time boundaries are exact (NotBefore, NotAfter, +-1 s).',
   'crypto/x509 certificate creation and parsing are trusted. Don\'t-care zones (contentCommitment, EKU on CAs, unknown critical extensions, shared keys) are not generated. Validity windows sit >= 2 h from the clock.')
 t('C14', 'E1', 'exhaustive enumeration of TSA chain descriptions incl. all 16 EKU subsets x criticality against a reference model',
   'Same generator as C03 under the timestamping rule set, with the leaf EKU ranging over all 16 subsets of {timeStamping, codeSigning, any, unknown} x both criticalities; the verdicts of ValidateTimestampingCertChain and of both revocation entry points configured for timestamping are compared with the reference, and the code-signing validator is compared differentially on the same descriptions.',
   'As C03.')
 t('C04', 'E1', 'exhaustive enumeration of responder-behaviour sequences (fault sequences) over 1..3 URLs with ground truth by construction',
-  'Every assignment of 58 responder behaviours (incl. invalidity dates on Revoked, Unknown and Good answers, unauthorised signers incl. certificates without EKU / with anyEKU / a subordinate CA, answers for another serial, a signature transplanted from an answer processed just before) to the responder URLs that are actually contacted (full product for <=2 URLs, and for 3 URLs in thorough) x GET/POST-forcing serials x RSA/EC issuer x signing time x both entry points; hand-encoded OCSP responses; the verdict is judged against the authenticity/currency/serial/status ground truth of the contacted behaviours; the same validator object is then asked again with the other signing-time setting and judged for that one; an answer delivered after its own nextUpdate (the responder waits for the real clock); and every request is decoded and checked.',
+  'Every assignment of 62 responder behaviours (incl. invalidity dates on Revoked, Unknown and Good answers, unauthorised signers incl. certificates without EKU / with anyEKU / a subordinate CA, answers for another serial, answers signed by a sibling or by the checked certificate that name the issuer as responder by name or by key hash, a signature transplanted from an answer processed just before) to the responder URLs that are actually contacted (full product for <=2 URLs, and for 3 URLs in thorough) x GET/POST-forcing serials x RSA/EC issuer x signing time x both entry points; hand-encoded OCSP responses; the verdict is judged against the authenticity/currency/serial/status ground truth of the contacted behaviours; the same validator object is then asked again with the other signing-time setting and judged for that one; an answer delivered after its own nextUpdate (the responder waits for the real clock); and every request is decoded and checked.',
   'ECDSA/RSA are trusted; responses sit >= 1 h from the nextUpdate boundary; an unknown critical single extension is a don\'t-care.')
 t('C05', 'E1', 'exhaustive enumeration of CRL bundle behaviours per distribution point (fault sequences) through a fake fetcher and the real HTTPFetcher',
-  'Every assignment of 34 bundle behaviours (incl. delta number/indicator at and around the boundary, other content under a signature value that is genuine for a CRL validated just before in the same execution, base CRL number 0) to the 1..3 distribution points actually contacted, through both a caller-supplied fetcher and the real HTTPFetcher (also with a cache and points that differ only in the query string), x RSA/EC issuer x freshest-CRL pointer in the certificate x issuer without cRLSign; hand-encoded DER CRLs; verdict judged against the generating descriptions.',
+  'Every assignment of 37 bundle behaviours (incl. delta number/indicator at and around the boundary, other content under a signature value that is genuine for a CRL validated just before in the same execution, base CRL number 0) to the 1..3 distribution points actually contacted, through both a caller-supplied fetcher and the real HTTPFetcher (also with a cache and points that differ only in the query string), x RSA/EC issuer x freshest-CRL pointer in the certificate x issuer without cRLSign; hand-encoded DER CRLs; verdict judged against the generating descriptions.',
   'CRLs sit >= 24 h from the nextUpdate boundary. A non-matching entry with an unknown critical extension is a don\'t-care.')
 t('C10', 'E1', 'complete small-scope enumeration of base/delta CRL entry lists against a reference interpreter',
-  'Every entry list up to length 2 over the full 292-entry alphabet (reasons absent/0..10 x 3 revocation times x 4 invalidity-date positions x critical-extension flag + other-serial representatives), every base/delta split, signing time zero/non-zero; length 3 and 4 over reduced alphabets; the same lists through the OCSP-to-CRL fallback (length <= 2), and the same base CRL checked just before with an earlier (empty) delta. Each list is a real signed DER CRL judged through ValidateContext against a reference interpreter of the statement.',
+  'Every entry list up to length 2 over the full 292-entry alphabet (reasons absent/0..10 x 3 revocation times x 4 invalidity-date positions x critical-extension flag + other-serial representatives), every base/delta split, signing time zero/non-zero; length 3 and 4 over reduced alphabets; the same lists through the OCSP-to-CRL fallback (length <= 2), the same base CRL checked just before with an earlier (empty) delta, and entries whose invalidity-date extension is flagged critical. Each list is a real signed DER CRL judged through ValidateContext against a reference interpreter of the statement.',
   'Lists beyond the stated lengths are not explored. Two don\'t-care zones (hold/remove ties; exempted remove entries) accept either verdict.')
 t('C11', 'E1', 'complete decision-table enumeration (responders x distribution points x outcome classes x purposes x entry points) with request-log oracle',
   'The whole table o in 0..3, c in 0..3, every outcome class of every contacted source, both purposes, both entry points, plus bounded deviations on chains of length 3..4; result, method label, ordered server results and the per-certificate request sequence are compared with the statement\'s table.',
   'One representative behaviour per outcome class (the behaviour alphabets are covered by C04/C05/C06).')
 t('C06', 'E1', 'deviation-bounded and full-product fault enumeration over every OCSP / CRL URL, cache operation and cancellation point',
-  'Fault alphabets of 24 OCSP and 22 CRL answers (transport errors, timeouts, non-200 with genuine bodies, empty/truncated/oversized/garbage bodies, OCSP error statuses, cancellation before/during/after a request, 32 MiB and endless bodies) x cache faults with DiscardCacheError on/off x non-http and unparsable URL strings before, after or instead of the usable ones, full product on one certificate with up to (3,3) sources and bounded deviations on chains of length 3..4; fail-closed implication plus an isolation table.',
+  'Fault alphabets of 24 OCSP and 22 CRL answers (transport errors, timeouts, non-200 with genuine bodies, empty/truncated/oversized/garbage bodies, OCSP error statuses, cancellation before/during/after a request, 32 MiB and endless bodies) x cache faults with DiscardCacheError on/off x non-http and unparsable URL strings before, after or instead of the usable ones, full product on one certificate with up to (3,3) sources and bounded deviations on chains of length 3..4; fail-closed implication plus an isolation table; every response body the transport handed out must have been closed when the call returns.',
   'Evidence of good standing is the class of the answer actually delivered. Panics are judged by C09.')
 
 t('C17', 'E2', 'controlled scheduler over the real goroutines: exhaustive enumeration of all seam-operation interleavings with panic / cancellation injection, plus an auxiliary free-running -race pass',
-  'The goroutines that ValidateContext / ocsp.CheckStatus start are parked inside the harness RoundTripper, Fetcher and Cache; quiescence is read from goroutine dumps by creation ancestry; every interleaving (up to 2 520 per answer pattern) is executed with a panic (text value or genuine runtime.Error), a cancellation instead of the answer, or a cancellation right after the answer injected at every position; bundles shared through the cache or handed out by the caller\'s fetcher, and the callers\' certificates, must be left untouched (including the spare capacity behind slices). Two callers with contexts of their own: at every quiescent point one caller\'s context may be cancelled; it must come back without the other caller\'s exchange completing, and the other caller\'s results are the reference. Checked per schedule: results equal the sequential reference, no deadlock state, no goroutine alive after return, injected panic resurfaces on the caller with its value, cancellation fails closed; two concurrent callers sharing validator/client/fetcher/cache each get the reference result.',
+  'The goroutines that ValidateContext / ocsp.CheckStatus start are parked inside the harness RoundTripper, Fetcher and Cache; quiescence is read from goroutine dumps by creation ancestry; every interleaving (up to 2 520 per answer pattern) is executed with a panic (text value or genuine runtime.Error), a cancellation instead of the answer, or a cancellation right after the answer injected at every position; bundles shared through the cache or handed out by the caller\'s fetcher, and the callers\' certificates, must be left untouched (including the spare capacity behind slices). Two callers with contexts of their own: at every quiescent point one caller\'s context may be cancelled; it must come back without the other caller\'s exchange completing, and the other caller\'s results are the reference. Checked per schedule: results equal the sequential reference, no deadlock state, no goroutine alive after return, injected panic resurfaces on the caller with its value, cancellation fails closed, every response body handed out is closed (also after non-200 answers); two concurrent callers sharing validator/client/fetcher/cache each get the reference result.',
   'Interleavings are at seam granularity; unsynchronised memory accesses between seams are left to the auxiliary -race pass (1..32 callers), which samples schedules and is reported as auxiliary.')
 
 t('C02', 'E1', 'complete enumeration of the finite (key kind x declared algorithm x format x declaration form x signer) table with genuinely valid signatures for the declared algorithm',
-  'All 10 leaf key kinds x 17 declarations x both formats x both schemes (x 5 JWS declaration forms incl. letter-case twins of alg), each envelope produced by an independent encoder and signed validly for the declared algorithm wherever the key type permits; every remote KeySpec in a 4x10 grid against every certificate key, external signers whose KeySpec answer changes after k queries (the emitted declaration is read by the harness\'s own decoders), on a fresh envelope object and on one that already signed with a leaf matching the declared spec; every (leaf key, private key) pair of the 26-key pool for NewLocalSigner; Hash() and SignatureAlgorithm() tables. The space is finite and enumerated completely.',
+  'All 10 leaf key kinds x 17 declarations x both formats x both schemes (x 5 JWS declaration forms incl. letter-case twins of alg), each envelope produced by an independent encoder and signed validly for the declared algorithm wherever the key type permits; every remote KeySpec in a 4x10 grid against every certificate key, external signers whose KeySpec answer changes after k queries (the emitted declaration is read by the harness\'s own decoders), on a fresh envelope object and on one that already signed with a leaf matching the declared spec; every (leaf key, private key) pair of the 26-key pool for NewLocalSigner, and private keys derived from the leaf key (same RSA modulus with another exponent, same EC coordinates on another curve); Hash() and SignatureAlgorithm() tables. The space is finite and enumerated completely.',
   'ECDSA/RSA/HMAC from the Go standard library are trusted. Two exact alg members are not generated.')
 t('C07', 'E1', 'deviation-bounded enumeration (singles, pairs, triples) of header-set deviations on correctly signed envelopes from an independent encoder',
-  '16 conformant header sets plus 83 named deviations in 11 slots (incl. payload members named like JWT registered claims), tagged must-reject / recorded-only / benign; every single deviation and every cross-slot pair (thorough: triples) is encoded, validly signed and given to ParseEnvelope+Verify and +Content. Oracle: soundness on the description and on the returned value, completeness for conformant sets, Verify => Content with an identical result, also when Verify, Content, Verify, Content are called on one parsed object.',
+  '16 conformant header sets plus 97 named deviations in 11 slots (incl. payload members named like JWT registered claims, COSE tag heads written in longer-than-shortest forms), tagged must-reject / recorded-only / benign; every single deviation and every cross-slot pair (thorough: triples) is encoded, validly signed and given to ParseEnvelope+Verify and +Content. Oracle: soundness on the description and on the returned value, completeness for conformant sets, Verify => Content with an identical result, also when Verify, Content, Verify, Content are called on one parsed object.',
   'Deviations of one slot are never combined. Recorded-only deviations are not judged. Larger random sets are replaced by the exhaustive bound.')
 t('C12', 'E1+E2', 'deviation-bounded enumeration of per-source outcomes with model-independent shape rules, invalid-chain classes, and exhaustive completion orders under the seam scheduler',
-  'Chains of length 1..5 (quick) / 1..6 (thorough) with distinct URLs (two responders + one point, points only, one responder + two points, no sources), every per-source outcome class with <=1/<=2 deviations, both purposes, three entry points: documented shape rules checked on every result list and every position compared with the decision-table reference; every chain-validation violation class (the same certificates checked for the other purpose first), empty and nil chain must give InvalidChainError and nil results; unusual URL spellings, a repeated distribution point and chains of 9..17 certificates under a watchdog; the same chain three times through one object (the caller overwrites the second answer in between); the caller\'s certificates compared with a fresh parse afterwards; E2 enumerates all completion orders of the concurrent per-certificate checks.',
+  'Chains of length 1..5 (quick) / 1..6 (thorough) with distinct URLs (two responders + one point, points only, one responder + two points, no sources), every per-source outcome class with <=1/<=2 deviations, both purposes, three entry points: documented shape rules checked on every result list and every position compared with the decision-table reference; every chain-validation violation class (the same certificates checked for the other purpose first), empty and nil chain must give InvalidChainError and nil results; unusual URL spellings, a repeated distribution point, chains of 9..17 certificates under a watchdog, and chains of self-issued certificates (subject = issuer, distinct keys) that carry responders; the same chain three times through one object (the caller overwrites the second answer in between); the caller\'s certificates compared with a fresh parse afterwards; E2 enumerates all completion orders of the concurrent per-certificate checks.',
   'One representative behaviour per outcome class.')
 t('C13', 'E1', 'enumeration of extra protected headers (label kinds x value kinds by rotation, all critical subsets) on correctly signed envelopes',
-  '0..6 extra protected headers with text and COSE integer labels (incl. look-alikes of specification names), values of every JSON/CBOR kind, every subset marked critical, each parsed object read Content, Verify, Content, Verify; plus crit naming absent labels (must be rejected) or specification labels that need not be critical (if accepted, they still never appear among the attributes); the surfaced multiset of (key, criticality, value) is compared through the format data model (exact numbers), and ExtendedAttribute lookup is checked.',
+  '0..6 extra protected headers with text and COSE integer labels (incl. look-alikes of specification names and the name of the unprotected timestamp header), values of every JSON/CBOR kind, every subset marked critical, each parsed object read Content, Verify, Content, Verify; plus crit naming absent labels (must be rejected) or specification labels that need not be critical (if accepted, they still never appear among the attributes); the surfaced multiset of (key, criticality, value) is compared through the format data model (exact numbers), and ExtendedAttribute lookup is checked.',
   'Label/value assignments are covered by rotations. JWS numbers that float64 cannot hold are a recorded known finding (5 literals).')
 t('C08', 'E1', 'deviation-bounded enumeration (singles and cross-slot pairs) of valid sign-request variations with independent re-decoding of the emitted envelope',
-  'A default request plus 78 valid variations in 10 slots (incl. times in zones with sub-minute UTC offsets, up to 300 attributes, values nested 12 levels, lists and maps of 100 elements); every single variation and pair (P-256; singles on the other five key specs) in both formats with local and remote signers. Another envelope is signed between Sign and the use of its result (the returned slice must not change). The envelope must verify and equal the request (exact-number JSON / CBOR data model); the bytes handed to the external signer are compared with the signing input recomputed by an independent JSON/CBOR decoder.',
+  'A default request plus 91 valid variations in 10 slots (incl. times in zones with sub-minute UTC offsets, up to 300 attributes, values nested 12 levels, lists and maps of 100 elements, JWS content types without a slash); every single variation and pair (P-256; singles on the other five key specs) in both formats with local and remote signers. Another envelope is signed between Sign and the use of its result (the returned slice must not change). The envelope must verify and equal the request (exact-number JSON / CBOR data model); the bytes handed to the external signer are compared with the signing input recomputed by an independent JSON/CBOR decoder.',
   'Attribute integers stay below 2^53 here (see C13). An empty content type is only a valid request for JWS.')
 t('C16', 'E1', 'deviation-bounded enumeration (singles and cross-slot pairs) of invalidating changes to a valid sign request',
-  '153 invalidating changes in 7 slots (incl. look-alike names of the JWS specification headers, integer labels above int64, text keys that are not valid UTF-8) (incl. the same COSE integer label twice in equal or different Go integer types) and three valid boundary cases; every single change and every cross-slot pair, both formats and schemes, local and remote signer, P-256 and RSA-2048 (thorough: six key specs). Any invalidating change => error, nil bytes, no panic; none => success; plus NewLocalSigner argument cases.',
+  '147 invalidating changes in 7 slots (incl. look-alike names of the JWS specification headers, integer labels above int64, text keys that are not valid UTF-8, the same COSE integer label twice in equal or different Go integer types) and three valid boundary cases; every single change and every cross-slot pair, both formats and schemes, local and remote signer, P-256 and RSA-2048 (thorough: six key specs). Any invalidating change => error, nil bytes, no panic; none => success; plus NewLocalSigner argument cases.',
   'Changes of one slot are never combined. A signer whose chain carries another key of the same kind, or nil certificates, is outside the statement.')
 t('C20', 'E3', 'exhaustive enumeration of operation histories on one envelope object against a six-state reference machine',
   'Every history up to length 4 (quick) / 5 (thorough) (one less for local signers) over 11 operations (incl. an external signer whose signature value was made with another key, and another envelope object signing a request of another shape) from 3 start states, both formats, local and remote signer, each replayed on a fresh object; after every operation Verify and Content are called twice and compared with the machine; every value handed out is kept with a copy and compared at the end of the history (purity, no-signature when empty, content of the last successful signing equal to a fresh parse of the returned bytes, failed signing never observable). Closed-form history counts are checked.',
@@ -65,13 +65,13 @@ t('C01', 'E1', 'exhaustive application of seven mutation-operator classes to eve
   'Every single-bit flip, every prefix, every single-byte deletion and insertion, structural edits of the decoded container, every splice of a non-empty proper subset of {protected, payload, signature, chain} between every pair of entries, leaf substitutions, re-encodings and unsigned-part edits of every base envelope (independent encoder and library-signed; also JWS entries whose payload text is line-wrapped and signed in that form, entries with a second chain inside the signed header, and entries signed by the intermediate / root / an unrelated key). If a mutant verifies, the ledger of everything the harness keys signed must hold an entry by the returned leaf key equal in all signed fields, re-verified with the standard library.',
   'Cryptography is trusted (the harness holds every private key). Inputs further than one operator application from a base entry are not explored.')
 t('C09', 'E1', 'exhaustive byte-level neighbourhoods of every seed, all inputs of length <= 2, special inputs and the full product of hostile URL strings x answers x entry points, in crash-contained workers with a watchdog',
-  'Every prefix, single-bit flip and {00,01,7f,80,ff} substitution of envelopes, certificate and key files, an OCSP response, a base and a delta CRL; all inputs of length <= 2; ~30 special inputs (deep nesting, huge declared lengths); 22 hostile URL strings x 5 positions x 4 serial sizes x 7 answers x 4 entry points; 10 authentic-but-unusual CRL bundles; OCSP / CRL / delta replies whose body never ends (3 statuses x 3 prefixes x 2 entry points; a read that reaches the 128 MiB harness horizon was not bounded). Every call runs on a watched goroutine (panic / 60 s watchdog) and the worker process is journalled so that a process death is confirmed in fresh processes.',
+  'Every prefix, single-bit flip and {00,01,7f,80,ff} substitution of envelopes, certificate and key files, an OCSP response, a base and a delta CRL; all inputs of length <= 2; ~30 special inputs (deep nesting, huge declared lengths); 22 hostile URL strings x 5 positions x 4 serial sizes x 7 answers x 4 entry points; 10 authentic-but-unusual CRL bundles; chains of 9..17 certificates; delegated OCSP responders that vouch for each other (the number of exchanges must stay bounded); OCSP / CRL / delta replies whose body never ends (3 statuses x 3 prefixes x 2 entry points; a read that reaches the 128 MiB harness horizon was not bounded). Every call runs on a watched goroutine (panic / 60 s watchdog) and the worker process is journalled so that a process death is confirmed in fresh processes.',
   'The input space is infinite: only the stated neighbourhoods are decided. Coverage-guided fuzzing (sampling) is deliberately not used.')
 t('C15', 'E1', 'full-product enumeration of TSA behaviours x revocation-result vectors x configurations against an in-process RFC 3161 authority',
-  'A hand-written CMS/RFC 3161 authority behind tspclient HTTP timestamper with 50 behaviours x {TSA roots named / not named at all, on a host whose own store trusts the TSA} (incl. the caller giving up while the authority works; quick tier: the valid authorities under all six key specs) (a valid timestamped signing is made first in each process) (incl. TSA certificates outside their validity at the moment of signing with a genTime shifted into it; requests handed to Sign directly and through WithContext) x revocation validator {none, every vector over four results for the TSA chain, error, wrong-length vectors} x timestamper set/nil x both formats x both schemes x key specs; success iff the statement condition; embedded token byte-identical to the issued one; request imprint = H(signature) with the table hash; failures are TimestampError with no bytes; authority never contacted under signingAuthority or without a timestamper.',
+  'A hand-written CMS/RFC 3161 authority behind tspclient HTTP timestamper with 46 behaviours x {TSA roots named / not named at all, on a host whose own store trusts the TSA} (incl. the caller giving up while the authority works; quick tier: the valid authorities under all six key specs) (a valid timestamped signing is made first in each process) (incl. TSA certificates outside their validity at the moment of signing with a genTime shifted into it; requests handed to Sign directly and through WithContext) x revocation validator {none, every vector over four results for the TSA chain, error, wrong-length vectors} x timestamper set/nil x both formats x both schemes x key specs; success iff the statement condition; embedded token byte-identical to the issued one; request imprint = H(signature) with the table hash; failures are TimestampError with no bytes; authority never contacted under signingAuthority or without a timestamper.',
   'Caller-written Timestamper implementations and validators returning nil entries are outside the statement.')
 t('C18', 'E3', 'exhaustive enumeration of event histories on the real HTTPFetcher with scripted transport and cache, against a reference model of the fetcher',
-  'Every history up to depth 4 (quick) / 5 (thorough) over 22 events (incl. a cache that hands back its entry together with an error) on 17 freshest-CRL shapes (incl. nameless distribution points next to the one carrying the location) (incl. the cache holding the base the server still serves with an expired delta, a cache that reports a miss as a wrapped ErrCacheMiss and a caller that cancels right after the base download has been answered) x {no cache, cache, cache+discard} x 17 freshest-CRL shapes (location lists deliberately not in lexical order); each fetch is judged from the request and cache-operation log against the statement (cached bundle only if effective in both parts, downloaded bundle written to the cache, delta iff advertised and from the first answering location, unobtainable delta is an error, cache faults are errors unless discarded, miss never an error, http only) and against a reference model; returned CRLs hold the served bytes and keep them while later fetches run.',
+  'Every history up to depth 4 (quick) / 5 (thorough) over 23 events (incl. a cache that hands back its entry together with an error, a cache write that fails with an error wrapping ErrCacheMiss) on 17 freshest-CRL shapes (incl. nameless distribution points next to the one carrying the location) (incl. the cache holding the base the server still serves with an expired delta, a cache that reports a miss as a wrapped ErrCacheMiss and a caller that cancels right after the base download has been answered) x {no cache, cache, cache+discard} (location lists deliberately not in lexical order); each fetch is judged from the request and cache-operation log against the statement (cached bundle only if effective in both parts, downloaded bundle written to the cache, delta iff advertised and from the first answering location, unobtainable delta is an error, cache faults are errors unless discarded, miss never an error, http only) and against a reference model; returned CRLs hold the served bytes and keep them while later fetches run.',
   'A URI sharing a distribution-point name with a non-URI name is a recorded don\'t-care.')
 
 checks = []
